@@ -4,7 +4,7 @@ from __future__ import annotations
 
 import math
 
-from .ops import LIB_GATES, csize, n_user
+from .ops import LIB_GATES, csize, n_user, plain
 
 GATE_1Q = ["I", "H", "X", "Y", "Z", "S", "Sadj", "T", "Tadj", "SX"]
 GATE_ROT = ["P", "Rx", "Ry", "Rz"]
@@ -75,10 +75,14 @@ class Client:
         if pids and r.random() < self.cfg.get("p_param", 0.35):
             return {"p": self.pick(pids)}
         if kind == "r":
-            return r.choice([0.5, 0.5, 0.0, 1.0, round(r.random(), 3)])
-        if kind == "loss":
-            return r.choice([0, 0, 0, 0, 0.3, 1.0, round(r.random() * 0.9, 2)])
-        return round(r.uniform(0, 2 * math.pi), 4)
+            v = r.choice([0.5, 0.5, 0.0, 1.0, round(r.random(), 3)])
+        elif kind == "loss":
+            v = r.choice([0, 0, 0, 0, 0.3, 1.0, round(r.random() * 0.9, 2)])
+        else:
+            v = round(r.uniform(0, 2 * math.pi), 4)
+        if v and r.random() < self.cfg.get("p_numpy", 0.06):
+            return {"np": "float64", "v": float(v)}
+        return v
 
     def state_for(self, c, max_photons=2) -> list:
         n = c.input_modes
@@ -179,15 +183,25 @@ class Builder(Client):
             return o
         if k == "loss":
             l = self.value("loss")
-            if l == 0:
+            if plain(l) == 0:
                 l = 0.5
             return {"op": "loss", "c": cid, "m": r.randrange(nu), "l": l}
         if k == "barrier":
+            if r.random() < 0.06:
+                return {"op": "barrier", "c": cid, "modes": []}
             if r.random() < 0.5:
                 return {"op": "barrier", "c": cid}
             ms = r.sample(range(nu), r.randint(1, nu))
             return {"op": "barrier", "c": cid, "modes": ms}
         if k == "mode_swaps":
+            if r.random() < 0.05:
+                return {"op": "mode_swaps", "c": cid, "swaps": []}
+            if r.random() < 0.08:
+                # a swap dictionary with a fixed point next to a genuine swap
+                ms = r.sample(range(nu), min(nu, 3))
+                if len(ms) == 3:
+                    return {"op": "mode_swaps", "c": cid,
+                            "swaps": [[ms[0], ms[0]], [ms[1], ms[2]], [ms[2], ms[1]]]}
             ms = r.sample(range(nu), r.randint(2, min(nu, 5)))
             tg = ms[:]
             r.shuffle(tg)
@@ -422,6 +436,8 @@ class Tuner(Client):
             v = self.valid_value(role, lo, hi)
             if v is None:
                 return None
+            if r.random() < 0.06:
+                v = {"np": "float64", "v": float(v)}
             return {"op": "param_set", "p": pid, "value": v}
         if k < 0.7 and isinstance(p.get(), (int, float)):
             v = p.get() - r.choice([0, 0.1, 0.5])
